@@ -1,0 +1,52 @@
+/*
+ * Verification yield points (compiled in only with -DLIBERASURECODE_VERIF).
+ *
+ * A test harness may define the function pointer liberasurecode_verif_hook;
+ * the library then calls it at the points below so that a harness-side
+ * scheduler can pause a thread there.  The hook must not call back into the
+ * library.  Without the define LEC_VERIF_YIELD() expands to nothing and the
+ * object code is unchanged.
+ */
+#ifndef _ERASURECODE_VERIF_H_
+#define _ERASURECODE_VERIF_H_
+
+#ifdef LIBERASURECODE_VERIF
+
+enum {
+    LEC_VP_LOOKUP_ENTRY = 1,        /* instance lookup by descriptor: entry */
+    LEC_VP_LOOKUP_WALK,             /* instance lookup: about to walk the list */
+    LEC_VP_ALLOC_DESC,              /* descriptor allocation loop iteration */
+    LEC_VP_REGISTER_ENTRY,          /* register: before taking the lock */
+    LEC_VP_REGISTER_INSERTED,       /* register: instance inserted, no descriptor yet */
+    LEC_VP_REGISTER_DESC_SET,       /* register: descriptor stored */
+    LEC_VP_UNREGISTER_ENTRY,        /* unregister: before taking the lock */
+    LEC_VP_UNREGISTER_REMOVED,      /* unregister: instance removed from the list */
+    LEC_VP_CREATE_AFTER_INIT,       /* create: backend init done, not registered */
+    LEC_VP_DESTROY_AFTER_LOOKUP,    /* destroy: instance found */
+    LEC_VP_DESTROY_AFTER_EXIT,      /* destroy: backend exit done */
+    LEC_VP_DESTROY_BEFORE_FREE,     /* destroy: unregistered, about to free */
+    LEC_VP_GF_INIT_ENTRY,           /* GF tables init: entry */
+    LEC_VP_GF_INIT_COUNTED,         /* GF tables init: reference counted */
+    LEC_VP_GF_INIT_MID_FILL,        /* GF tables init: tables half filled */
+    LEC_VP_GF_INIT_FILLED,          /* GF tables init: tables complete */
+    LEC_VP_GF_DEINIT_ENTRY,         /* GF tables deinit: entry */
+    LEC_VP_GF_DEINIT_COUNTED,       /* GF tables deinit: reference dropped */
+    LEC_VP_GF_DEINIT_BEFORE_FREE,   /* GF tables deinit: about to free */
+    LEC_VP_MAX
+};
+
+extern void (*liberasurecode_verif_hook)(int point) __attribute__((weak));
+
+#define LEC_VERIF_YIELD(point) \
+    do { \
+        if (&liberasurecode_verif_hook && liberasurecode_verif_hook) \
+            liberasurecode_verif_hook(point); \
+    } while (0)
+
+#else
+
+#define LEC_VERIF_YIELD(point) do { } while (0)
+
+#endif /* LIBERASURECODE_VERIF */
+
+#endif /* _ERASURECODE_VERIF_H_ */
